@@ -492,11 +492,9 @@ func gwExchanges(plan []exch, seed int64) exchObs {
 				hostFail = &exFail{i, "request", true, "the request read is not the request written"}
 				return
 			}
-			resp := st.rsp
-			if resp == nil {
-				resp = got // an RPC without response data
-			}
-			if as.WriteResponse(resp) != nil {
+			// catalogue objects exercised as requests have no response leg (relay RPCs carry none; for the others the
+			// catalogue defines no response that fits the request's parameters)
+			if st.rsp != nil && as.WriteResponse(st.rsp) != nil {
 				return
 			}
 		}
@@ -513,10 +511,14 @@ func gwExchanges(plan []exch, seed int64) exchObs {
 			callFail = &exFail{i, "id", false, "write: " + err.Error()}
 		} else if err := s.WriteRequest(st.req); err != nil {
 			callFail = &exFail{i, "request", false, "write: " + err.Error()}
+		} else if st.rsp == nil {
+			// no response leg
 		} else if err := s.ReadResponse(st.req); err != nil {
 			callFail = &exFail{i, "response", false, err.Error()}
-		} else if st.rsp != nil && !bytes.Equal(gwRespBytes(st.req), gwRespBytes(st.rsp)) {
-			callFail = &exFail{i, "response", true, "the response read is not the response written"}
+		} else if !bytes.Equal(gwRespBytes(st.req), gwRespBytes(st.rsp)) {
+			got, want := gwRespBytes(st.req), gwRespBytes(st.rsp)
+			callFail = &exFail{i, "response", true, fmt.Sprintf("the response read is not the response written (%s/%s: %d bytes written, re-encodes to %d, first difference at byte %d)",
+				st.g.name, st.g.dir, len(want), len(got), firstDiff(got, want))}
 		}
 		if callFail != nil {
 			break
